@@ -399,7 +399,8 @@ def case_strategy():
             decos = [draw(st.sampled_from(DECOS)) for _ in range(nd)]
             # bias heads towards other aliases so chains and cycles are frequent
             head = draw(st.sampled_from(names + names + heads))
-            rest = draw(st.lists(st.sampled_from(ARGS), max_size=3))
+            # a decorator alias name that is NOT in front is an ordinary word (`find-dec = 'grep -rn @unthread'`)
+            rest = draw(st.lists(st.sampled_from(ARGS + DECOS[:3]), max_size=3))
             body = decos + [head] + rest
             if kind == "str":
                 # a string body goes through xonsh's own classifier/splitter; keep it to tokens
@@ -413,7 +414,7 @@ def case_strategy():
         perm = list(draw(st.permutations(range(len(items))))) if len(items) > 1 else None
         lead = [draw(st.sampled_from(DECOS)) for _ in range(draw(st.sampled_from([0, 0, 0, 1, 2])))]
         inv = draw(st.sampled_from(names + names + PLAIN_HEADS))
-        pool = ARGS + ["u", "v w", "a", "b"]
+        pool = ARGS + ["u", "v w", "a", "b"] + DECOS[:3]      # decorator names among the user's arguments are arguments
         if not any(it[1] == "ret" for it in items):
             pool = pool + PROTECTED_ARGS        # (see exhaustive_cases: not through return_command aliases)
         uargs = draw(st.lists(st.sampled_from(pool), max_size=4))
